@@ -51,6 +51,7 @@ class TypeGen:
         self.allow_field_engine = True
         self.allow_stype = not schema_only
         self.allow_talias = True
+        self.allow_boxed = not schema_only
         self.shuffled_names = True       # own fields a0 / e1 / u2 ...: declaration order differs from sorted order
         self.dc_config_fn = dc_config_fn
         self.mixins = mixins
@@ -400,6 +401,18 @@ class TypeGen:
                 f["dmode"] = r.choice(["default", "factory"])
                 f["dseed"] = r.getrandbits(32)
             fields.append(f)
+        if self.allow_boxed and nfields is None and r.random() < 0.07:
+            # a member of a class only a registered SerializationStrategy can (de)serialize
+            bname = self.fresh("BX")
+            self.fam.add({"k": "boxed", "name": bname, "flavour": r.choice(["plain", "dict", "annotated", "annotated", "annotated-sub", "annotated-sub"])})
+            B = ("boxed", bname)
+            shape = r.choice([B, B, ("opt", B, "Optional"), ("seq", "List", B), ("map", "Dict", ("str",), B), ("tuple", "Tuple", (B, ("int",)))])
+            f = {"n": "bx", "t": shape}
+            if shape == B and r.random() < 0.5:
+                f["meta"] = {"serialization_strategy": f"{bname}_S"}        # registered on the field instead of the Config
+            if defaults_started or r.random() < 0.3:
+                f.update(dmode="factory", dseed=r.getrandbits(32))
+            fields.append(f)
         fields += fields_tail
         if self.allow_field_engine:
             # per-field NamedTuple engine (overrides Config / dialect namedtuple_as_dict for this field only)
@@ -547,7 +560,7 @@ class TypeGen:
         'as_dict' loudly when the class is built, so such fields get no NamedTuple engine option."""
         seen = _seen if _seen is not None else set()
         for n in tast.walk(t):
-            if n[0] in ("date", "datetime", "time", "stype"):      # an annotated SerializableType speaks date on the wire
+            if n[0] in ("date", "datetime", "time", "stype", "boxed"):      # annotated SerializableType / strategies speak date on the wire
                 return False
             if n[0] == "tv" and n[1] not in seen:
                 seen.add(n[1])
